@@ -76,8 +76,45 @@ class {name}(object):
 '''
 
 
+# a declarative SQLAlchemy model whose table name differs from its class name (the ORM convention); stand-ins keep the module importable without sqlalchemy
+CLASS_SQL = '''
+class {name}(Base):
+    """
+    Rows of the {name} stage
+
+    :cvar label: identifier shown to the user
+    :cvar retries: how many times to retry"""
+
+    __tablename__ = "{name}_rows"
+
+    label = Column(String, primary_key=True, comment="identifier shown to the user")
+    retries = Column(Integer, default=3, comment="how many times to retry")
+'''
+SQL_PREAMBLE = '''try:
+    from sqlalchemy import Column, Integer, String
+    from sqlalchemy.orm import declarative_base
+
+    Base = declarative_base()
+except ImportError:
+
+    class Base(object):
+        pass
+
+    def Column(*args, **kwargs):
+        return None
+
+    Integer = String = None
+'''
+
+
 def make_package(root, depth, partial_all, layout="direct"):
     global CLASS
+    if layout == "sql_model":
+        saved, CLASS = CLASS, SQL_PREAMBLE + CLASS_SQL
+        try:
+            return _make_package(root, depth, partial_all)
+        finally:
+            CLASS = saved
     if layout == "via_subpackage_typed":
         # the parent re-exports a plain module that sorts before the sub-package and then the sub-package's *own* re-export; attributes use typing names
         saved, CLASS = CLASS, "from typing import Optional\n" + CLASS_TYPED
@@ -135,6 +172,9 @@ def cases(tier, seed):
     # another package layout: re-export through the sub-package's own __init__, classes with typing annotations
     for depth, emit, recursive, dry in itertools.product((2, 3), EMITS if tier != "quick" else ("class", "function", "sqlalchemy", "pydantic"), (False, True), (False, True)):
         yield dict(depth=depth, partial_all=False, emit=emit, recursive=recursive, filter="none", dry_run=dry, out_exists=False, sqlalchemy_submodule=False, layout="via_subpackage_typed")
+    # modules whose class is a declarative SQLAlchemy model with a table name of its own
+    for depth, emit, recursive, dry in itertools.product((1, 2), EMITS if tier != "quick" else ("class", "function", "sqlalchemy", "pydantic"), (False, True), (False, True)):
+        yield dict(depth=depth, partial_all=False, emit=emit, recursive=recursive, filter="none", dry_run=dry, out_exists=False, sqlalchemy_submodule=False, layout="sql_model")
     # further options of the command: --target-module-name, --no-word-wrap, --extra-module
     for depth, emit, recursive, dry, flags in itertools.product((1, 2), ("class", "function", "sqlalchemy") if tier == "quick" else EMITS, (False, True), (False, True),
                                                                (["--target-module-name", "renamed_out"], ["--no-word-wrap"], ["--extra-module", "json"], ["--target-module-name", "renamed_out", "--no-word-wrap", "--extra-module", "json"])):
@@ -162,6 +202,8 @@ def _run(case):
     viol = []
     ctx = dict(check="exmod", emit=case["emit"], dry_run=case["dry_run"], recursive=case["recursive"], filter=case["filter"], out_exists=case["out_exists"], **(dict(out_is_target=True) if case.get("out_is_target") else {}),
                sqlalchemy_submodule=case["sqlalchemy_submodule"], depth=case["depth"], partial_all=case["partial_all"])
+    if case.get("layout") and case["layout"] != "direct":
+        ctx["layout"] = case["layout"]
 
     def v(clause, expected, observed, **extra):
         sig = dict(ctx)
